@@ -299,28 +299,25 @@ async fn run_async(scn: &Scn, blobs: &mut HashMap<Vec<u8>, u32>, qs: &[Pfx]) -> 
                     None => { conns.push(Conn { stream: None, addr: *addr, asn: *asn, established: false }); "refused".into() }
                     Some(mut s) => {
                         let _ = s.set_nodelay(true);
-                        let _ = s.write_all(&open_bytes(*asn, 90, [10, 0, (*addr >> 8) as u8, *addr as u8])).await;
+                        let mut hello = open_bytes(*asn, 90, [10, 0, (*addr >> 8) as u8, *addr as u8]);
+                        let pipelined = eager.contains(&opi) && !qs.is_empty();
+                        if pipelined {
+                            // OPEN, KEEPALIVE and the table in one segment: to the receiver a peer that answers fast looks
+                            // the same, and everything a session may read after the verdict is already there to be read
+                            hello.extend_from_slice(&keepalive());
+                            let u = Upd { attr: 900 + opi as u32, ann: vec![Nlri { pfx: qs[0], safi: Safi::U }], wd: vec![], mp4: false, corrupt: 0 };
+                            if let Ok((pdu, pas)) = encode_update(&u) { blobs.insert(pas, u.attr); for _ in 0..6 { hello.extend_from_slice(&pdu); } }
+                        }
+                        let _ = s.write_all(&hello).await;
                         let mut got_open = false;
-                        let mut got_ka = false;
+                        let mut got_ka = pipelined;
                         let mut verdict = String::new();
                         let t = Instant::now();
                         loop {
                             if t.elapsed() > Duration::from_secs(3) { verdict = "stuck".into(); break; }
                             match read_frame(&mut s, Duration::from_millis(5)).await {
                                 Frame::Msg(1, _) => got_open = true,
-                                Frame::Msg(4, _) => {
-                                    if !got_ka {
-                                        let mut out = keepalive();
-                                        if eager.contains(&opi) && !qs.is_empty() {
-                                            let u = Upd { attr: 900 + opi as u32, ann: vec![Nlri { pfx: qs[0], safi: Safi::U }], wd: vec![], mp4: false, corrupt: 0 };
-                                            // six times the same UPDATE (a peer may repeat itself): the longer the unit goes on
-                                            // reading, the more of them it sees
-                                            if let Ok((pdu, pas)) = encode_update(&u) { blobs.insert(pas, u.attr); for _ in 0..6 { out.extend_from_slice(&pdu); } }
-                                        }
-                                        let _ = s.write_all(&out).await;
-                                    }
-                                    got_ka = true;
-                                }
+                                Frame::Msg(4, _) => { if !got_ka { let _ = s.write_all(&keepalive()).await; } got_ka = true; }
                                 Frame::Msg(3, b) => { verdict = format!("notif{}.{}", b.first().copied().unwrap_or(0), b.get(1).copied().unwrap_or(0)); }
                                 Frame::Msg(_, _) => {}
                                 Frame::Eof => { if verdict.is_empty() { verdict = if got_open { "rejected".into() } else { "nocfg".into() }; } break; }
